@@ -233,6 +233,16 @@ def _equality_connect(is_sparse: bool, newton: bool):
     if not eq_active_in[worldid, eqid]:
       return
 
+    # MuJoCo adds no rows for an equality whose two bodies have no degrees of freedom up to the
+    # world (empty Jacobian chain): skip before any counter is bumped
+    skip_body1 = eq_obj1id[eqid]
+    skip_body2 = eq_obj2id[eqid]
+    if nsite > 0 and eq_objtype[eqid] == types.ObjType.SITE:
+      skip_body1 = site_bodyid[skip_body1]
+      skip_body2 = site_bodyid[skip_body2]
+    if body_weldid[skip_body1] == 0 and body_weldid[skip_body2] == 0:
+      return
+
     wp.atomic_add(ne_out, worldid, 3)
     efcid = wp.atomic_add(nefc_out, worldid, 3)
 
@@ -1047,6 +1057,16 @@ def _equality_weld(is_sparse: bool, newton: bool):
     eqid = eq_wld_adr[eqweldid]
 
     if not eq_active_in[worldid, eqid]:
+      return
+
+    # MuJoCo adds no rows for an equality whose two bodies have no degrees of freedom up to the
+    # world (empty Jacobian chain): skip before any counter is bumped
+    skip_body1 = eq_obj1id[eqid]
+    skip_body2 = eq_obj2id[eqid]
+    if nsite > 0 and eq_objtype[eqid] == types.ObjType.SITE:
+      skip_body1 = site_bodyid[skip_body1]
+      skip_body2 = site_bodyid[skip_body2]
+    if body_weldid[skip_body1] == 0 and body_weldid[skip_body2] == 0:
       return
 
     wp.atomic_add(ne_out, worldid, 6)
